@@ -3,8 +3,11 @@ network, pairwise anti-entropy with independent halves, restart, purge and globa
 Shared by C01 (convergence to last-writer-wins) and C08 (global clause: purging is invisible)."""
 import concurrent.futures
 import os
+import shutil
 
+import actor_trace
 import vlib
+from checks import actor_traces
 
 BASE = dict(Keys={1, 2}, Sources={0, 1}, FixD6=True, MinOpsToEmit=1)
 
@@ -52,6 +55,7 @@ SIMULATED = {
                                   WithPurge=True, MinOpsToEmit=3), 15000, 160, 6000)],
     },
 }
+ACTOR_PROPS = {"C01": ["C04"], "C08": ["C08"]}
 INVARIANTS = ["C01_Converges", "C02_Agree", "C05_NothingLeft", "C01_TrackerFixpoint"]
 
 
@@ -81,10 +85,18 @@ def _simulated(ctx, binary, name, c, num, depth, max_replay):
     if bad and not violated:
         raise vlib.ToolError("simulation of %s failed:\n%s" % (name, "\n".join(bad[:5])))
     out = ctx.path("replay_%s.json" % name)
+    actors_dir = ctx.path("actors_%s" % name)
+    shutil.rmtree(actors_dir, ignore_errors=True)
+    os.makedirs(actors_dir)
     vlib.run_harness(ctx, [binary, "replay-cluster", "--input", out_file, "--out", out, "--f", str(c["F"]),
-                           "--nodes", ",".join(map(str, sorted(c["CNodes"]))), "--max", str(max_replay)], timeout=3000)
+                           "--nodes", ",".join(map(str, sorted(c["CNodes"]))), "--max", str(max_replay)], timeout=3000,
+                     env={"DATACAKE_VERIF_TRACE_DIR": actors_dir})
     os.remove(out_file)
     rep = vlib.load_json(out)
+    # (V) what every keyspace actor of the real nodes did during the replay, against Trace_KeyspaceActor.tla
+    rep["actor_trace"] = actor_traces.validate(ctx, actor_trace.files_in(actors_dir), "actors_" + name, ACTOR_PROPS[ctx.prop],
+                                               max_events=40000 if ctx.tier == "quick" else 400000)
+    shutil.rmtree(actors_dir, ignore_errors=True)
     if rep["behaviours"] == 0:
         raise vlib.ToolError("vacuous: simulation of %s emitted no converged behaviour" % name)
     return dict(name=name, kind="simulated", sim=sim, violated=violated, rep=rep, constants=_consts(c), num=num, depth=depth)
@@ -139,6 +151,6 @@ def judge(ctx, results, props):
                                     depth=r["mc"]["depth"], wall_s=r["mc"]["wall_s"]) for r in ex],
         "simulated_configs": [dict(name=r["name"], constants=r["constants"], traces=r["num"], depth=r["depth"],
                                    behaviours_replayed=r["rep"]["behaviours"], steps=r["rep"]["steps"],
-                                   step_kinds=r["rep"]["step_kinds"]) for r in si],
+                                   step_kinds=r["rep"]["step_kinds"], actor_trace=r["rep"].get("actor_trace")) for r in si],
         "checker_cmd": ex[0]["mc"]["cmd"] if ex else "",
     }
